@@ -27,7 +27,9 @@ type vkFwdUp struct {
 
 // vkFwdDeviations: what an upstream may do to the header / question it sends back while still being
 // accepted by the forwarder's client (same ID, same question up to letter case).
-var vkFwdDeviations = []string{"plain", "lcq", "ucq", "qr0", "op", "rd0", "ra0", "z", "aa", "tc0ad"}
+var vkFwdDeviations = []string{"plain", "lcq", "ucq", "qr0", "op", "rd0", "ra0", "z", "aa", "tc0ad",
+	// what the answer carries beyond the asked records
+	"rrsig", "nsec", "optall", "optnoask", "big", "strayopt"}
 
 func (u *vkFwdUp) handle(w dns.ResponseWriter, req *dns.Msg) {
 	u.mu.Lock()
@@ -61,8 +63,48 @@ func (u *vkFwdUp) handle(w dns.ResponseWriter, req *dns.Msg) {
 		m.Authoritative = true
 	case "tc0ad":
 		m.AuthenticatedData = true
+	case "rrsig": // DNSSEC records whether or not anybody asked for them, and AD
+		m.AuthenticatedData = true
+		m.Answer = append(m.Answer, &dns.RRSIG{Hdr: dns.RR_Header{Name: q.Name, Rrtype: dns.TypeRRSIG, Class: dns.ClassINET, Ttl: 300},
+			TypeCovered: q.Qtype, Algorithm: 13, Labels: uint8(dns.CountLabel(q.Name)), OrigTtl: 300, Expiration: 4102444800, Inception: 1600000000, KeyTag: 1, SignerName: "t.", Signature: "AAAA"})
+	case "nsec":
+		m.Answer = nil
+		m.Ns = []dns.RR{
+			&dns.SOA{Hdr: dns.RR_Header{Name: "t.", Rrtype: dns.TypeSOA, Class: dns.ClassINET, Ttl: 300}, Ns: "ns.t.", Mbox: "h.t.", Serial: 1, Refresh: 1, Retry: 1, Expire: 1, Minttl: 300},
+			&dns.NSEC{Hdr: dns.RR_Header{Name: q.Name, Rrtype: dns.TypeNSEC, Class: dns.ClassINET, Ttl: 300}, NextDomain: "zz." + q.Name, TypeBitMap: []uint16{dns.TypeMX, dns.TypeRRSIG, dns.TypeNSEC}},
+		}
+	case "optall", "optnoask": // an OPT with the upstream's own cookie, keepalive, subnet, padding and an unknown option
+		if dev == "optnoask" || req.IsEdns0() != nil {
+			m.Extra = append(m.Extra, vkFwdOPT())
+		}
+	case "strayopt": // an OPT record outside the additional section
+		m.Ns = append(m.Ns, vkFwdOPT())
+	case "big":
+		m.Answer = nil
+		for i := 0; i < 9; i++ {
+			m.Answer = append(m.Answer, &dns.TXT{Hdr: dns.RR_Header{Name: q.Name, Rrtype: dns.TypeTXT, Class: dns.ClassINET, Ttl: 300}, Txt: []string{strings.Repeat(string(rune('a'+i)), 200)}})
+		}
+		if q.Qtype != dns.TypeTXT {
+			m.Answer = m.Answer[:0]
+			for i := 0; i < 120; i++ {
+				m.Answer = append(m.Answer, &dns.A{Hdr: dns.RR_Header{Name: q.Name, Rrtype: dns.TypeA, Class: dns.ClassINET, Ttl: 300}, A: net.IPv4(192, 0, 2, byte(i+1))})
+			}
+		}
 	}
 	_ = w.WriteMsg(m)
+}
+
+func vkFwdOPT() *dns.OPT {
+	o := &dns.OPT{Hdr: dns.RR_Header{Name: ".", Rrtype: dns.TypeOPT}}
+	o.SetUDPSize(4096)
+	o.Option = []dns.EDNS0{
+		&dns.EDNS0_COOKIE{Code: dns.EDNS0COOKIE, Cookie: "aaaaaaaaaaaaaaaabbbbbbbbbbbbbbbb"},
+		&dns.EDNS0_TCP_KEEPALIVE{Code: dns.EDNS0TCPKEEPALIVE, Timeout: 77},
+		&dns.EDNS0_SUBNET{Code: dns.EDNS0SUBNET, Family: 1, SourceNetmask: 24, SourceScope: 24, Address: net.IPv4(198, 51, 100, 0)},
+		&dns.EDNS0_PADDING{Padding: make([]byte, 16)},
+		&dns.EDNS0_LOCAL{Code: 65001, Data: []byte("up")},
+	}
+	return o
 }
 
 func vkStartFwdUp() (*vkFwdUp, error) {
